@@ -93,6 +93,14 @@ Theorem C01_scalar_of_mset_other : forall fs m f v g, f_name g <> f_name f ->
 Proof. exact scalar_of_mset_other. Qed.
 Print Assumptions C01_scalar_of_mset_other.
 
+(* re-binding a URL-capable singular field with the value a canonical message already gives it changes
+   nothing *)
+Theorem C01_rebind_canonical : forall fs m f, canonical fs m ->
+  find_field fs (f_name f) = Some f -> field_url_ok f = true ->
+  mset_scalar fs m f (scalar_of m f) = m.
+Proof. exact mset_scalar_same_canonical. Qed.
+Print Assumptions C01_rebind_canonical.
+
 (* a pattern matches its own filled segments and yields the printed values of its variables *)
 Theorem C01_match_fill : forall fs req segs filled,
   all_ok (map (fill_seg fs req) segs) = Ok filled ->
@@ -110,7 +118,10 @@ Print Assumptions C01_lit_no_pct.
 
 (* POST / PUT / PATCH: the handler sees exactly the request, the caller gets exactly the reply.
    Premises besides the empty defect list: the method belongs to the service, method names are distinct,
-   path-bound values print non-empty (the property's own premise), URL-capable fields are well typed. *)
+   path-bound values print non-empty (the property's own premise), URL-capable fields are well typed, and
+   the request is a canonical value (strictly increasing field numbers, every key a field, URL-capable
+   singular scalars stored only when non-zero — what the harness's MsgCanon produces): the server applies
+   the path values on top of the decoded body, and that gives the request back only for canonical values. *)
 Theorem C01_body_verbs : forall sc fl sv md ct req resp w o,
   go_call sc fl sv md ct req resp = Ok (w, o) ->
   defects_C01 sc fl sv md ct req = [] ->
@@ -118,6 +129,7 @@ Theorem C01_body_verbs : forall sc fl sv md ct req resp w o,
   In md (sv_methods sv) -> NoDup (map md_name (sv_methods sv)) ->
   path_vals_nonempty (in_fields sc md) req (path_vars (info_of fl sv md (in_fields sc md))) = true ->
   req_typed (in_fields sc md) req ->
+  canonical (in_fields sc md) req ->
   o = Delivered req resp.
 Proof. exact go_call_body. Qed.
 Print Assumptions C01_body_verbs.
@@ -260,10 +272,10 @@ Proof. vm_compute. split; [reflexivity|]. split; [reflexivity|]. eexists. split;
 Definition outcome_of (x : result (wire_req * outcome)) : option outcome :=
   match x with Ok (_, o) => Some o | Unmodelled _ => None end.
 
-(* application/octet-stream: the client writes JSON, the server reads binary *)
-Example C01_refuted_octet_stream :
-  defects_C01 sc1 fl1 sv1 put_md CtOctet put_req = [C01OctetStreamJsonBody] /\
-  outcome_of (go_call sc1 fl1 sv1 put_md CtOctet put_req resp1) = Some (Rejected (s "body")).
+(* application/octet-stream (repaired): both sides use binary protobuf; the call is delivered intact *)
+Example C01_octet_stream_delivered :
+  defects_C01 sc1 fl1 sv1 put_md CtOctet put_req = [] /\
+  outcome_of (go_call sc1 fl1 sv1 put_md CtOctet put_req resp1) = Some (Delivered put_req resp1).
 Proof. vm_compute. split; reflexivity. Qed.
 
 (* a path value "." is swallowed by ServeMux's path cleaning *)
@@ -334,3 +346,143 @@ Example C01_needs_nonempty_path_value :
      (path_vars (info_of fl1 sv1 put_md (in_fields sc1 put_md))) = false /\
   outcome_of (go_call sc1 fl1 sv1 put_md CtJSON put_req_empty resp1) = Some NotRouted.
 Proof. vm_compute. repeat split; reflexivity. Qed.
+
+
+(* a request that is not canonical (here the path-bound int64 is stored although it is zero): the handler
+   sees the canonical form of it, not the term the caller passed *)
+Definition put_req_noncanon : mval := [(s "id", FS (VStr (s "a"))); (s "n", FS (VInt 0))].
+Example C01_needs_canonical_request :
+  defects_C01 sc1 fl1 sv1 put_md CtJSON put_req_noncanon = [] /\
+  canonicalb (in_fields sc1 put_md) put_req_noncanon = false /\
+  outcome_of (go_call sc1 fl1 sv1 put_md CtJSON put_req_noncanon resp1)
+    = Some (Delivered [(s "id", FS (VStr (s "a")))] resp1).
+Proof. vm_compute. repeat split; reflexivity. Qed.
+
+(* ---- subtree routes (a method path ending in '/') ------------------------------------------------------------------ *)
+
+(* GET /api/ (subtree) next to GET /api/one and PUT /api/x/{id}: the more specific pattern serves its own
+   path; the subtree route serves the rest *)
+Definition list_md := mkmd (s "List") (s "QReq") (s "/") 1.
+Definition one_md := mkmd (s "One") (s "QReq") (s "/one") 1.
+Definition putx_md := mkmd (s "PutX") (s "XReq") (s "/x/{id}") 3.
+Definition q_msg := mkmsg (s "QReq") [mkf (s "page") 1 KInt32 (Some {| q_name := s "page"; q_required := false |})].
+Definition x_msg := mkmsg (s "XReq") [mkf (s "id") 1 KString None].
+Definition sv_root := mksv (s "/api") [list_md; one_md; putx_md].
+Definition fl_root := mkfl [q_msg; x_msg] sv_root.
+Definition q_req : mval := [(s "page", FS (VInt 3))].
+
+Example C01_subtree_route_is_least_specific :
+  defects_C01 [fl_root] fl_root sv_root one_md CtJSON q_req = [] /\
+  outcome_of (go_call [fl_root] fl_root sv_root one_md CtJSON q_req resp1) = Some (Delivered q_req resp1) /\
+  defects_C01 [fl_root] fl_root sv_root list_md CtJSON q_req = [] /\
+  outcome_of (go_call [fl_root] fl_root sv_root list_md CtJSON q_req resp1) = Some (Delivered q_req resp1).
+Proof. vm_compute. repeat split; reflexivity. Qed.
+
+(* a path that the mux would redirect (dot segment) while a subtree route is registered: the redirect
+   may reach a handler — outside the model *)
+Example C01_redirect_into_subtree_unmodelled :
+  go_call [fl_root] fl_root sv_root putx_md CtJSON [(s "id", FS (VStr (s ".")))] resp1
+    = Unmodelled (s "redirect into a subtree route").
+Proof. vm_compute. reflexivity. Qed.
+
+(* a request path that is a registered subtree pattern minus its trailing slash ("/x" with POST /x/
+   registered) and has no exact match: the mux redirects to "/x/" — outside the model.  (Here the path
+   comes from the client's default route for an RPC without configured path.) *)
+Definition xs_md := mkmd (s "Sub") (s "XReq") (s "/x/") 2.
+Definition xd_md : method :=
+  {| md_name := s "X"; md_in := s "XReq"; md_out := s "Resp"; md_has_cfg := false; md_path := [];
+     md_verb := None; md_headers := [] |}.
+Definition sv_xs := mksv [] [xs_md; xd_md].
+Definition fl_xs := mkfl [x_msg] sv_xs.
+Example C01_slash_redirect_unmodelled :
+  go_call [fl_xs] fl_xs sv_xs xd_md CtJSON [(s "id", FS (VStr (s "a")))] resp1
+    = Unmodelled (s "redirect into a subtree route").
+Proof. vm_compute. reflexivity. Qed.
+
+(* ---- witnesses for the route and registration defect classes cited in KNOWN_FINDINGS.jsonl ------------------------- *)
+
+Definition dispatched (sc : schema) (fl : file) (sv : service) (md : method) (ct : ctype) (req : mval)
+  : option str :=
+  match client_build fl sv md (in_fields sc md) ct req, server_routes sc fl sv with
+  | Ok w, Ok (Some rs) => dispatched_to rs w
+  | _, _ => None
+  end.
+Definition wire_path (x : result (wire_req * outcome)) : option str :=
+  match x with Ok (w, _) => Some (w_path w) | Unmodelled _ => None end.
+Definition x_req : mval := [(s "id", FS (VStr (s "a")))].
+
+(* an RPC without configured path: the client calls /<lowerCamelMethod>, the server listens on
+   /<gopkg>/<snake_method> *)
+Definition cu_md : method :=
+  {| md_name := s "CreateUser"; md_in := s "XReq"; md_out := s "Resp"; md_has_cfg := false; md_path := [];
+     md_verb := None; md_headers := [] |}.
+Definition sv_def := mksv [] [cu_md].
+Definition fl_def := mkfl [x_msg] sv_def.
+Example C01_refuted_default_path :
+  defects_C01 [fl_def] fl_def sv_def cu_md CtJSON x_req = [C01Route DefaultPath] /\
+  wire_path (go_call [fl_def] fl_def sv_def cu_md CtJSON x_req resp1) = Some (s "/createUser") /\
+  rt_path (go_server (info_of fl_def sv_def cu_md (in_fields [fl_def] cu_md))) = s "/pkg/create_user" /\
+  outcome_of (go_call [fl_def] fl_def sv_def cu_md CtJSON x_req resp1) = Some NotRouted.
+Proof. vm_compute. repeat split; reflexivity. Qed.
+
+(* a base path without leading slash: the server registers the host pattern "api/x/{id}" *)
+Definition sv_bns := mksv (s "api") [putx_md].
+Definition fl_bns := mkfl [x_msg] sv_bns.
+Example C01_refuted_base_no_leading_slash :
+  defects_C01 [fl_bns] fl_bns sv_bns putx_md CtJSON x_req = [C01Route BaseNoLeadingSlash] /\
+  wire_path (go_call [fl_bns] fl_bns sv_bns putx_md CtJSON x_req resp1) = Some (s "/api/x/a") /\
+  rt_path (go_server (info_of fl_bns sv_bns putx_md (in_fields [fl_bns] putx_md))) = s "api/x/{id}" /\
+  outcome_of (go_call [fl_bns] fl_bns sv_bns putx_md CtJSON x_req resp1) = Some NotRouted.
+Proof. vm_compute. repeat split; reflexivity. Qed.
+
+(* a method path without leading slash and no base path: a host pattern ("x/{id}"), or — for a single
+   word without any slash — a pattern ServeMux refuses *)
+Definition pns_md := mkmd (s "PutX") (s "XReq") (s "x/{id}") 3.
+Definition sv_pns := mksv [] [pns_md].
+Definition fl_pns := mkfl [x_msg] sv_pns.
+Definition word_md := mkmd (s "PutX") (s "XReq") (s "x") 3.
+Definition sv_word := mksv [] [word_md].
+Definition fl_word := mkfl [x_msg] sv_word.
+Example C01_refuted_path_no_leading_slash :
+  defects_C01 [fl_pns] fl_pns sv_pns pns_md CtJSON x_req = [C01Route PathNoLeadingSlashNoBase] /\
+  wire_path (go_call [fl_pns] fl_pns sv_pns pns_md CtJSON x_req resp1) = Some (s "/x/a") /\
+  outcome_of (go_call [fl_pns] fl_pns sv_pns pns_md CtJSON x_req resp1) = Some NotRouted /\
+  defects_C01 [fl_word] fl_word sv_word word_md CtJSON x_req
+    = [C01Route PathNoLeadingSlashNoBase; C01UncleanPattern] /\
+  outcome_of (go_call [fl_word] fl_word sv_word word_md CtJSON x_req resp1) = Some RegistrationPanic.
+Proof. vm_compute. repeat split; reflexivity. Qed.
+
+(* a required query parameter on PUT: the client sends it in the body only, the server demands it in the
+   query string *)
+Definition rq_msg := mkmsg (s "RReq")
+  [mkf (s "id") 1 KString None; mkf (s "q") 2 KString (Some {| q_name := s "q"; q_required := true |})].
+Definition rqb_md := mkmd (s "PutR") (s "RReq") (s "/items/{id}") 3.
+Definition sv_rqb := mksv (s "/api") [rqb_md].
+Definition fl_rqb := mkfl [rq_msg] sv_rqb.
+Definition r_req : mval := [(s "id", FS (VStr (s "a"))); (s "q", FS (VStr (s "z")))].
+Example C01_refuted_required_query :
+  defects_C01 [fl_rqb] fl_rqb sv_rqb rqb_md CtJSON r_req = [C01RequiredQueryOnBodyVerb] /\
+  outcome_of (go_call [fl_rqb] fl_rqb sv_rqb rqb_md CtJSON r_req resp1) = Some (Rejected (s "q")).
+Proof. vm_compute. split; reflexivity. Qed.
+
+(* GET /items/{id} with id = "special" next to GET /items/special: the sibling's handler is reached *)
+Definition gi_md := mkmd (s "GetItem") (s "XReq") (s "/items/{id}") 1.
+Definition gs_md := mkmd (s "GetSpecial") (s "EReq") (s "/items/special") 1.
+Definition e_msg := mkmsg (s "EReq") [].
+Definition sv_sib := mksv (s "/api") [gi_md; gs_md].
+Definition fl_sib := mkfl [x_msg; e_msg] sv_sib.
+Definition sp_req : mval := [(s "id", FS (VStr (s "special")))].
+Example C01_refuted_sibling :
+  defects_C01 [fl_sib] fl_sib sv_sib gi_md CtJSON sp_req = [C01SiblingRoute] /\
+  dispatched [fl_sib] fl_sib sv_sib gi_md CtJSON sp_req = Some (s "GetSpecial") /\
+  outcome_of (go_call [fl_sib] fl_sib sv_sib gi_md CtJSON sp_req resp1) = Some (Delivered [] resp1).
+Proof. vm_compute. repeat split; reflexivity. Qed.
+
+(* a method path with an empty segment: every plugin accepts it, ServeMux.Handle panics on it *)
+Definition dbl_md := mkmd (s "PutX") (s "XReq") (s "//x/{id}") 3.
+Definition sv_dbl := mksv [] [dbl_md].
+Definition fl_dbl := mkfl [x_msg] sv_dbl.
+Example C01_refuted_registration_panic :
+  defects_C01 [fl_dbl] fl_dbl sv_dbl dbl_md CtJSON x_req = [C01UncleanPattern] /\
+  outcome_of (go_call [fl_dbl] fl_dbl sv_dbl dbl_md CtJSON x_req resp1) = Some RegistrationPanic.
+Proof. vm_compute. split; reflexivity. Qed.
